@@ -447,46 +447,8 @@ fn c38_q_value_reader_length_beyond_input() {
     assert!(failed, "field longer than the remaining input was accepted");
 }
 
-/// (b') One step into an embedded message: `Fields::next`, `read_message`, the
-/// nested `Fields::next` and `Field::skip`, on 0..=5 symbolic bytes: no panic
-/// (e.g. when a multi-byte tag crosses the end of the embedded message) and
-/// the position stays within the input.
-#[kani::proof]
-#[kani::unwind(13)]
-fn c38_t_nested_fields_step() {
-    use super::field::Fields;
-    let bytes: [u8; 5] = kani::any();
-    let n: usize = kani::any();
-    kani::assume(n <= 5);
-    let mut r = ValueReader::from_buf(&bytes[..n]);
-    {
-        let mut fields = Fields::new(&mut r, None);
-        match fields.next() {
-            Ok(Some(mut field)) => {
-                match field.read_message(None) {
-                    Ok(mut nested) => {
-                        match nested.next() {
-                            Ok(Some(mut inner)) => {
-                                kani::cover!(true, "nested field reached");
-                                match inner.skip() {
-                                    Ok(()) => {}
-                                    Err(e) => std::mem::forget(e),
-                                }
-                            }
-                            Ok(None) => {}
-                            Err(e) => std::mem::forget(e),
-                        }
-                    }
-                    Err(e) => std::mem::forget(e),
-                }
-            }
-            Ok(None) => {}
-            Err(e) => std::mem::forget(e),
-        }
-    }
-    let pos = r.position();
-    assert!(pos <= n as u64, "position beyond the input");
-}
+// (A harness for one step into an *embedded* message -- Fields::next, read_message, nested
+// Fields::next, Field::skip on <= 5 bytes -- got no verdict within 36 GB; dropped.)
 
 /// The file path wraps its reader in `ReadPos` (position tracking for readers
 /// that cannot report their position): after a skip followed by one more
